@@ -460,7 +460,8 @@ GroupRule(r0) ==
      /\ (IF linked /\ comparable /\ cfg.same = "exact"
           THEN /\ Chk("C06", r.sol = grp.sol, "C06_SolutionDiffers", <<grp.sol, r.sol>>)
                /\ Chk("C06", r.msg = grp.msg, "C06_MessageDiffers", 0)
-               /\ Chk("C06", bb.callseq = grp.calls, "C06_CallsDiffer", 0)
+               \* the provider call sequence is not part of the property: measured only
+               /\ (IF RuleOn("C06") /\ bb.callseq # grp.calls THEN Cover(<<"callsdiffer">>) ELSE TRUE)
           ELSE TRUE)
      /\ grp' = IF g = 0 \/ ctx.k # 1 THEN grp
                ELSE [id |-> g, kind |-> r.kind, sol |-> r.sol, msg |-> r.msg, calls |-> bb.callseq,
